@@ -133,6 +133,7 @@ def c05(tier: str) -> list[dict[str, Any]]:
         plan("G3 pool_filter=copy", trav.menu("G3", params={"pool_filter": "copy"}, label="G3-copy"), m, K=1, statuses=["PASS"], pool_fixed=virt),
         plan("G4 removable states at depth 2 with cloning", trav.menu("G4"), m, K=1, statuses=["PASS", "FAIL"], max_nonpass=1, pool_fixed=virt),
         plan("G8 removable state with a dependant, one worker excluded by its restrictions", trav.menu("G8"), m, K=1, statuses=["PASS"], pool_fixed={**virt, "connect": ["shared"]}),
+        plan("G8b a removable state with a lazily expanded dependant of another worker", trav.menu("G8b"), m, K=1, statuses=["PASS"], pool_fixed=DEEP),
         plan("G3 eager, a node saving a removable image state and a reusable vm state", trav.menu("G3", lazy=False, label="G3-mixed-marks"), m, K=1, statuses=["PASS"], pool_fixed=virt, setup=_extra_vm_state),
         plan("G7 removable state with a retried dependant, two remote workers of one cluster", trav.menu("G7", params={"max_tries": "2"}, label="G7-tries2"), m, K=1, statuses=["PASS"], pool_fixed={**virt, "connect": ["shared"]}),
     ]
